@@ -180,13 +180,22 @@ def fingerprint(v):
     return hashlib.sha1(json.dumps(v, sort_keys=True, default=str).encode()).hexdigest()[:12]
 
 
+def _by_kind(obls):
+    out = {}
+    for r in obls:
+        k = r.get('kind') or 'smt'
+        out[k] = out.get(k, 0) + 1
+    return out
+
+
 def finalise(report, level, level_checker_cmd):
     """Decide the exit code, print VIOLATION / KNOWN-FINDING lines, write the evidence file."""
     pid = report.pid
     known = load_json(KNOWN_FILE, {'findings': []})['findings']
     baseline = load_json(BASELINE_FILE, {})
     os.makedirs(os.path.join(VERIF, 'replays'), exist_ok=True)
-    os.makedirs(os.path.join(VERIF, 'evidence'), exist_ok=True)
+    evdir = os.environ.get('VF_EVIDENCE_DIR') or os.path.join(VERIF, 'evidence')   # seeded-defect runs write elsewhere
+    os.makedirs(evdir, exist_ok=True)
     lines = []
     violations = []
     undecided = list(report.undecided)
@@ -271,6 +280,7 @@ def finalise(report, level, level_checker_cmd):
             trusted_base=report.trusted,
             functions_under_contract=report.functions,
             by_backend=report.by_solver, solver_seconds=round(report.solver_seconds, 2),
+            by_kind=_by_kind(report.obligations),
             canaries=report.canaries,
             statements_dropped_by_extraction=sorted(set(report.dropped)),
             lemmas=report.lemmas,
@@ -291,7 +301,7 @@ def finalise(report, level, level_checker_cmd):
         wall_s=round(time.time() - report.t0, 2),
         violations=nviol,
     )
-    with open(os.path.join(VERIF, 'evidence', '%s.json' % pid), 'w') as f:
+    with open(os.path.join(evdir, '%s.json' % pid), 'w') as f:
         json.dump(ev, f, indent=1, default=str)
     if os.environ.get('VF_SLOW'):
         for r in sorted(report.obligations, key=lambda r: -r['seconds'])[:8]:
